@@ -2,6 +2,7 @@ package spec
 
 import (
 	"fmt"
+	"reflect"
 	"sort"
 	"testing"
 
@@ -212,6 +213,38 @@ func c20Grid(rec *evi.Recorder, magic uint32, fail func(key, what string, cs any
 					fmt.Sprintf("%s: generated map has %d versions, list has %d", tb.name, len(vm), len(list)),
 					map[string]any{"list": list, "magic": magic})
 			}
+			firstRaw := map[uint16]string{}
+			for _, v := range list {
+				if g, ok := vm[v]; ok && g != nil {
+					if r, err := cbor.Encode(&g); err == nil {
+						firstRaw[v] = string(r)
+					}
+				}
+			}
+			// history independence of the generated maps: a second map generated with
+			// other arguments (and then emptied by its caller) must not change the first,
+			// and the same arguments give the same data again
+			other := tb.gen(^magic, !d, !p, !q)
+			for k := range other {
+				delete(other, k)
+			}
+			again := tb.gen(magic, d, p, q)
+			rec.Eval()
+			for _, v := range list {
+				for which, m := range map[string]protocol.ProtocolVersionMap{"map-aliased": vm, "map-unstable": again} {
+					g, ok := m[v]
+					var r []byte
+					if ok && g != nil {
+						r, _ = cbor.Encode(&g)
+					}
+					if want, had := firstRaw[v]; had && string(r) != want {
+						fail(fmt.Sprintf("%s:%s:v%d", which, tb.name, v),
+							fmt.Sprintf("%s v%d: version data generated for (magic %d, %v,%v,%v) read %x; after another map was generated with other arguments and emptied by its caller, %s reads %x",
+								tb.name, v, magic, d, p, q, want, map[string]string{"map-aliased": "the same map", "map-unstable": "a map generated again with the same arguments"}[which], r),
+							c20Case{tb.name, v, magic, d, p, q, ""})
+					}
+				}
+			}
 			for _, v := range list {
 				cs := c20Case{tb.name, v, magic, d, p, q, ""}
 				rec.Eval()
@@ -239,11 +272,36 @@ func c20Grid(rec *evi.Recorder, magic uint32, fail func(key, what string, cs any
 					fail(fmt.Sprintf("nodecoder:%s:v%d", tb.name, v), "GetProtocolVersion(v) has no decoder", cs)
 					continue
 				}
-				dec, err := pv.NewVersionDataFromCborFunc(raw)
+				dec0, err0 := pv.NewVersionDataFromCborFunc(raw)
+				// failure path and history: the same decoder is first handed input it must
+				// refuse (empty, truncated, the other family's shape) and a *different* legal
+				// value, then the legal bytes again from a scratch buffer that is wiped afterwards
+				_, _ = pv.NewVersionDataFromCborFunc(nil)
+				_, _ = pv.NewVersionDataFromCborFunc(raw[:len(raw)-1])
+				if raw[0]&0xe0 == 0x80 {
+					_, _ = pv.NewVersionDataFromCborFunc([]byte{0x1a, 0xff, 0xff, 0xff, 0xff})
+				} else {
+					_, _ = pv.NewVersionDataFromCborFunc([]byte{0x82, 0x1a, 0xff, 0xff, 0xff, 0xff, 0xf5})
+				}
+				if og, ok := tb.gen(^magic, !d, !p, !q)[v]; ok && og != nil {
+					if oraw, oerr := cbor.Encode(&og); oerr == nil {
+						_, _ = pv.NewVersionDataFromCborFunc(oraw)
+					}
+				}
+				buf := append([]byte(nil), raw...)
+				dec, err := pv.NewVersionDataFromCborFunc(buf)
+				for i := range buf {
+					buf[i] = 0xff
+				}
 				if err != nil || dec == nil {
 					fail(fmt.Sprintf("decode:%s:v%d", tb.name, v),
 						fmt.Sprintf("version %d's own decoder rejects the generated data %x: %v", v, raw, err), cs)
 					continue
+				}
+				if err0 != nil || dec0 == nil || dec0.NetworkMagic() != dec.NetworkMagic() || dec0.DiffusionMode() != dec.DiffusionMode() ||
+					dec0.PeerSharing() != dec.PeerSharing() || dec0.Query() != dec.Query() {
+					fail(fmt.Sprintf("decoder-history:%s:v%d", tb.name, v),
+						fmt.Sprintf("%s v%d: decoding %x gave %+v (err %v) at first and %+v after the decoder had refused malformed input and decoded another value", tb.name, v, raw, dec0, err0, dec), cs)
 				}
 				c := carriedBy(tb.fam, v)
 				// (1) literal statement: decoded == generated on all four accessors
@@ -283,6 +341,7 @@ func TestC20(t *testing.T) {
 		"case = (table in {cardano-ntc, cardano-ntn, dmq-ntc, dmq-ntn}, version of that table, diffusion, peerSharing, query, magic); "+
 			"for every magic (fixed boundary values + rapid draws) the whole version x 8 flag grid of all four tables is enumerated; "+
 			"each rapid case first replays a history of 1-4 caller-side mutations (reverse / overwrite / append / truncate+append on a returned list, delete / nil-out on a returned version map) and re-reads all four lists; "+
+			"all 65536 version numbers are looked up once (lookup table vs lists); each grid cell also decodes after the decoder refused malformed input and decoded another value, from a buffer wiped afterwards, and re-reads its map after another map was generated and emptied; "+
 			"oracle = list order/mode purity, lists unaffected by what callers do to earlier results, era prefix/monotonicity, encode->own-decoder round trip vs generated value and vs the requested arguments, and CDDL shape via independent CBOR reader; "+
 			"non-trivial = magic != 0 or a flag set (decoded value distinguishable from a zero value); distinct by (table, version, flags, magic)")
 	defer rec.Finish()
@@ -341,6 +400,37 @@ func TestC20(t *testing.T) {
 			prev, prevV = n, v
 		}
 	}
+	// ---- every 16-bit version number (0, 32767, 32768, 65535 and everything between): the
+	// lookup table and the four lists describe the same set of versions, no number is in two
+	// lists, and a number that is in no list is not a version (no decoder, no eras, no protocols)
+	inLists := map[uint16][]string{}
+	for _, tb := range vTables {
+		for _, v := range tb.list() {
+			inLists[v] = append(inLists[v], tb.name)
+		}
+	}
+	special := map[uint16]bool{0: true, 1: true, 6: true, 16: true, 0x0fff: true, 0x1000: true, 0x1002: true, 0x7fff: true, 0x8000: true, 0x8001: true, 0x8008: true, 0x8016: true, 0x9001: true, 0xffff: true}
+	for n := 0; n <= 0xffff; n++ {
+		v := uint16(n)
+		pv := protocol.GetProtocolVersion(v)
+		rec.Eval()
+		hasDecoder := pv.NewVersionDataFromCborFunc != nil
+		blank := pv
+		blank.NewVersionDataFromCborFunc = nil
+		isZero := reflect.DeepEqual(blank, protocol.ProtocolVersion{})
+		switch tabs := inLists[v]; {
+		case len(tabs) > 1:
+			rec.Violation(fmt.Sprintf("list-overlap:v%d", v), fmt.Sprintf("version %d (0x%x) is in more than one list: %v", v, v, tabs), nil)
+		case len(tabs) == 0 && (hasDecoder || !isZero):
+			rec.Violation(fmt.Sprintf("lookup-unlisted:v%d", v),
+				fmt.Sprintf("GetProtocolVersion(%d) (0x%x) describes a supported version (decoder=%v, flags %+v) but no version list contains it", v, v, hasDecoder, blank), nil)
+		}
+		if special[v] {
+			rec.Class("special_version_number_probed")
+			rec.NonTrivial(fmt.Sprintf("lookup v%d listed=%v", v, inLists[v]), map[string]any{"version": v, "lists": inLists[v], "has_decoder": hasDecoder})
+		}
+	}
+	rec.SetExtra("version_numbers_swept", 65536)
 	rec.SetExtra("versions_total", nVersions)
 	rec.SetExtra("grid_cells_per_magic", nVersions*8)
 
